@@ -833,3 +833,43 @@ DEFAULT_PREFIX_STUBS = [
     ('_ZNSt12domain_errorC', _nop), ('_ZNSt12domain_errorD', _nop),
     ('_ZNSt12length_errorC', _nop), ('_ZNSt12length_errorD', _nop),
 ]
+
+
+def _s_ctor_move(ex, st, args, I):
+    this, other = args[0], args[1]
+    p = ex.load(st, other, PtrT(llir.I8))
+    n = ex.load(st, Ptr(other.rid, other.off + 8), llir.I64)
+    r = ex.region(st, this)
+    if isinstance(p, Ptr) and p.rid == other.rid and p.off == other.off + 16:
+        # short string: characters live in the object
+        for i in range(16):
+            try:
+                b = ex.load(st, Ptr(other.rid, other.off + 16 + i), llir.I8)
+            except Exception:
+                break
+            ex.store(st, Ptr(this.rid, this.off + 16 + i), llir.I8, b)
+        ex.store(st, this, PtrT(llir.I8), Ptr(this.rid, this.off + 16))
+    else:
+        ex.store(st, this, PtrT(llir.I8), p)
+        cap = ex.load(st, Ptr(other.rid, other.off + 16), llir.I64)
+        ex.store(st, Ptr(this.rid, this.off + 16), llir.I64, cap)
+    ex.store(st, Ptr(this.rid, this.off + 8), llir.I64, n)
+    # moved-from: empty short string
+    ex.store(st, other, PtrT(llir.I8), Ptr(other.rid, other.off + 16))
+    ex.store(st, Ptr(other.rid, other.off + 8), llir.I64, 0)
+    ex.store(st, Ptr(other.rid, other.off + 16), llir.I8, 0)
+    return None
+
+
+def string_text(ex, st, sptr):
+    """python bytes of a std::string object (None if symbolic)"""
+    p = ex.load(st, sptr, PtrT(llir.I8))
+    n = ex.load(st, Ptr(sptr.rid, sptr.off + 8), llir.I64)
+    if not isinstance(p, Ptr) or not isinstance(n, int):
+        return None
+    t = ex.read_cstr(st, p, maxlen=n + 1)
+    return None if t is None else t[:n]
+
+
+STRING_MODEL_STUBS[_S + 'C2EOS4_'] = _s_ctor_move
+STRING_MODEL_STUBS[_S + 'C1EOS4_'] = _s_ctor_move
